@@ -200,7 +200,9 @@ func registerNatives2(e *Engine) {
 		}
 		if _, done := p.Obj.Ghost["once-done"]; !done {
 			p.Obj.Ghost["once-done"] = ex.tb().True()
+			ex.syncEnter()
 			ex.invoke(args[1].(*Func), nil, site)
+			ex.syncLeave()
 		}
 		return nil
 	}
